@@ -142,4 +142,35 @@ def serveConn (cap : Nat) (w : Wit.Cfg) (h : HCfg) (store : Wit.Store) (allow : 
   else if cap ≠ 0 ∧ body.length > cap then ({ status := 400 }, none)
   else serve w h store allow body
 
+/-! ### a session: successive requests against the endpoint and the witness state behind it -/
+
+/-- the `Update` an add-checkpoint body amounts to, when it gets as far as the witness -/
+def reqOf (h : HCfg) (body : Bytes) : Option Wit.Req :=
+  match parseBody body with
+  | none => none
+  | some (old, proof, cp) =>
+    match B.cut B.nl cp with
+    | none => none
+    | some (first, _) =>
+      match h.logs.find? (fun l => l.1 == Cp.logID first) with
+      | none => none
+      | some _ => some { logID := Cp.logID first, old := old, next := cp, proof := proof }
+
+/-- what one request (the limiter's answer and the body) asks of the witness -/
+def asked (h : HCfg) (p : Bool × Bytes) : Option Wit.Req := if p.1 then reqOf h p.2 else none
+
+/-- one request: the response, and the witness state after it -/
+def post (w : Wit.Cfg) (h : HCfg) (store : Wit.Store) (p : Bool × Bytes) : Wit.Store × Resp :=
+  let resp := (serve w h store p.1 p.2).1
+  match asked h p with
+  | none => (store, resp)
+  | some r => ((Wit.step w store r).1, resp)
+
+def session (w : Wit.Cfg) (h : HCfg) : Wit.Store → List (Bool × Bytes) → Wit.Store × List Resp
+  | s, [] => (s, [])
+  | s, p :: ps =>
+    let (s', r) := post w h s p
+    let (s'', rs) := session w h s' ps
+    (s'', r :: rs)
+
 end Bastion
